@@ -238,6 +238,8 @@ def modellable(scn):
     """Scenarios inside the modelling assumptions of MosaikSched: one entity per simulator, no two
     connections into the same destination slot from the same source entity (the slot would be ambiguous)."""
     seen = set()
+    if scn.get("eid_suffix"):
+        return False  # (the model's provenance tokens name the one entity "E0")
     for s in scn["sims"]:
         if s.get("nent", 1) != 1:
             return False
